@@ -221,7 +221,7 @@ class World(object):
             if rel is None:
                 return None
             d2 = self.ndisk(s.get("disk2", s.get("disk", 0))) if op != "rename" else d
-            new = nb(s["name"])
+            new = rel if s.get("keep_name") else nb(s["name"])
             if new.startswith(RESERVED_PREFIX) or (d2 == d and new == rel):
                 return None
             data = self.read_file(d, rel)
